@@ -1106,6 +1106,12 @@ func (c ipamClient) AssignIP(ctx context.Context, args AssignIPArgs) error {
 		if err != nil {
 			if _, ok := err.(cerrors.ErrorResourceUpdateConflict); ok {
 				log.WithError(err).Debug("CAS error assigning IP - retry")
+				if args.HandleID != nil {
+					// Undo the increment above; the retry will increment again if it gets that far.
+					if err := c.decrementHandle(ctx, *args.HandleID, blockCIDR, 1, nil); err != nil {
+						log.WithError(err).Warn("Failed to decrement handle")
+					}
+				}
 				continue
 			}
 
